@@ -24,6 +24,7 @@ pub struct Diag {
     pub has_stacktrace_header: bool,
     pub trace: Vec<TraceLine>,
     pub junk: Vec<String>, // lines that fit neither form
+    pub junk_before_trace_end: bool, // an unclassified line precedes the last stack-trace line
 }
 
 fn take_num(s: &str) -> Option<(u64, &str)> {
@@ -96,14 +97,20 @@ pub fn parse(stderr: &[u8], argv1: &[u8]) -> Option<Diag> {
     let mut lines = text[..text.len() - 1].split('\n');
     let first = lines.next()?;
     let head = parse_head(first, &a1)?;
-    let mut d = Diag { head, has_stacktrace_header: false, trace: vec![], junk: vec![] };
+    let mut d = Diag { head, has_stacktrace_header: false, trace: vec![], junk: vec![], junk_before_trace_end: false };
     for l in lines {
         if !d.has_stacktrace_header && l == "Stacktrace:" {
+            if !d.junk.is_empty() {
+                d.junk_before_trace_end = true;
+            }
             d.has_stacktrace_header = true;
             continue;
         }
         if d.has_stacktrace_header {
             if let Some(t) = parse_trace_line(l, &a1) {
+                if !d.junk.is_empty() {
+                    d.junk_before_trace_end = true;
+                }
                 d.trace.push(t);
                 continue;
             }
